@@ -66,6 +66,96 @@ def chars(s):
     return lean_list([str(ord(c)) for c in s])
 
 
+DASM_REL = "src/lang/merlin/disassembly.rs"
+
+
+def squeeze(s):
+    return re.sub(r"\s+", "", s)
+
+
+def fn_body(src, name):
+    """text of `fn name(...) {...}` (brace matched)"""
+    m = re.search(r"\bfn\s+%s\s*\(" % name, src)
+    if not m:
+        raise TranslatorError("fn %s not found in disassembly.rs" % name)
+    i = src.index("{", m.end())
+    depth, j = 0, i
+    while j < len(src):
+        if src[j] == "{":
+            depth += 1
+        elif src[j] == "}":
+            depth -= 1
+            if depth == 0:
+                return src[i:j + 1]
+        j += 1
+    raise TranslatorError("fn %s: unbalanced braces" % name)
+
+
+def gen_labels(repo):
+    """`A2Verif.Gen.DasmLabels`: the label rules of `Disassembler::format_lines` / `push_instruction`
+    that the label theorems of C15 are about.  Everything is checked syntactically against the one
+    shape the model transcribes; the only construct with more than one recognised shape is the
+    look-up key of the operand substitution guard (`exact` = the full operand value, `masked` = the
+    value reduced to the width of the label text)."""
+    path = os.path.join(repo, DASM_REL)
+    src = strip_rust_comments(open(path).read())
+    fl = squeeze(fn_body(src, "format_lines"))
+    pi = squeeze(fn_body(src, "push_instruction"))
+    # width of label texts
+    if "letpc_bytes=matchself.dasm_lines.iter().map(|x|x.address>0xffff).collect::<Vec<bool>>().contains(&true){true=>3,false=>2};" not in fl:
+        raise TranslatorError("format_lines: pc_bytes rule not recognised")
+    # which lines are labelled
+    if fl.count("labels.insert(") != 2 or fl.count("labels.insert(self.dasm_lines[i].address);") != 2:
+        raise TranslatorError("format_lines: labels are no longer exactly the line addresses")
+    if 'iflabeling.contains("all"){labels.insert(self.dasm_lines[i].address);}elseiflabeling.contains("some")&&(i==0||references.contains(&self.dasm_lines[i].address)){labels.insert(self.dasm_lines[i].address);}' not in fl:
+        raise TranslatorError("format_lines: labeling rule (all / some) not recognised")
+    if "forlinein&self.dasm_lines{forrin&line.references{references.insert(*r);}}" not in fl:
+        raise TranslatorError("format_lines: reference gathering not recognised")
+    # text of a line label and of a substituted operand
+    if 'line+="_";line+=&hex_from_val("",self.dasm_lines[i].addressasu32,pc_bytes);' not in fl:
+        raise TranslatorError("format_lines: line label text not recognised")
+    if 'letlab_txt=["_",&hex_from_val("",operand.num[0]asu32,pc_bytes)].concat();line+=&addr_pattern.replace(&operand.txt,&lab_txt);' not in fl:
+        raise TranslatorError("format_lines: operand label text not recognised")
+    # the substitution guard
+    m = re.search(r'ifoperand\.num\.len\(\)==1&&labels\.contains\(&\((.*?)\)\)&&!operand\.txt\.starts_with\("#"\)\{', fl)
+    if not m:
+        raise TranslatorError("format_lines: label substitution guard not recognised")
+    key = m.group(1)
+    if key == "operand.num[0]asusize":
+        kind = "exact"
+    else:
+        mm = re.fullmatch(r"operand\.num\[0\]asusize&([a-z_]+)", key)
+        if mm and ("let%s=(1usize<<(8*pc_bytes))-1;" % mm.group(1)) in fl:
+            kind = "masked"
+        else:
+            raise TranslatorError("format_lines: label look-up key %r not recognised" % key)
+    # which operands are references
+    if 'if!op.operand_snippet.starts_with("#"){new_line.references.push(val);}' not in pi:
+        raise TranslatorError("push_instruction: reference rule not recognised")
+    d = digest([path])
+    L = []
+    L.append("/-! GENERATED by /verif/translator/gen_c15.py from %s -- do not edit; regenerated on every run.\n"
+             "The label rules of `format_lines` were found in the shape the model `Model/DasmLabel.lean` transcribes\n"
+             "(label width, which lines are labelled, label texts, references); `labelKey` is the value that the\n"
+             "operand substitution guard looks up in the label set. -/" % DASM_REL)
+    L.append("namespace A2Verif.Gen.DasmLabels")
+    L.append("")
+    L.append("/-- `exact`: `labels.contains(&(operand.num[0] as usize))`; `masked`: the value is first reduced to the\n"
+             "`pc_bytes` bytes of the label text -/")
+    L.append("inductive LabelKey where")
+    L.append("  | exact | masked")
+    L.append("  deriving DecidableEq, Repr, Inhabited")
+    L.append("")
+    L.append("/-- the guard found in the current source: `%s` -/" % key)
+    L.append("def labelKey : LabelKey := .%s" % kind)
+    L.append("")
+    L.append('def sourceDigest : String := "%s"' % d)
+    L.append("")
+    L.append("end A2Verif.Gen.DasmLabels")
+    L.append("")
+    return "\n".join(L), d
+
+
 def generate(repo):
     jpath = os.path.join(repo, JSON_REL)
     opath = os.path.join(repo, OPS_REL)
@@ -247,7 +337,8 @@ def generate(repo):
     L.append("")
     L.append("end A2Verif.Gen.Opcodes")
     L.append("")
-    return {"Opcodes": "\n".join(L)}, {"Opcodes": d}
+    lab_src, lab_digest = gen_labels(repo)
+    return {"Opcodes": "\n".join(L), "DasmLabels": lab_src}, {"Opcodes": d, "DasmLabels": lab_digest}
 
 
 if __name__ == "__main__":
